@@ -320,7 +320,8 @@ class Discharger:
                     bad.add(l)
                 else:
                     ndefs[l] = ndefs.get(l, 0) + 1
-        self._sb = {l for l in range(len(fn.locals)) if l not in bad and ndefs.get(l, 0) <= 1}
+        # an argument is defined on entry: any further assignment makes it a two-definition local
+        self._sb = {l for l in range(len(fn.locals)) if l not in bad and ndefs.get(l, 0) <= (0 if 1 <= l <= fn.argc else 1)}
         return self._sb
 
     def vkey(self, op):
@@ -525,6 +526,21 @@ class Discharger:
                     if (adt == "RangeTo" and 0 <= vals[0] <= n_arr) or (adt == "RangeFrom" and 0 <= vals[0] <= n_arr) \
                             or (adt == "Range" and len(vals) == 2 and 0 <= vals[0] <= vals[1] <= n_arr):
                         return "const: constant range %s within the array length %d" % (vals, n_arr)
+        if site.kind == "K4" and site.what.startswith("index:") and len(site.node.get("args") or []) == 2:
+            # `v[..c]` / `v[a..b]` with constants, under a dominating lower bound on v.len()
+            rp = op_place(site.node["args"][1])
+            rd = self.defs.single(rp["l"]) if rp is not None and not rp["p"] else None
+            if rd and rd[0] == "st" and rd[3]["k"] == "=" and rd[3]["rv"]["k"] == "agg" and rd[3]["rv"].get("ak") == "adt":
+                adt = rd[3]["rv"]["adt"].split("::")[-1]
+                vals = [self.eval_const(o) for o in rd[3]["rv"]["ops"]]
+                if adt in ("RangeTo", "Range", "RangeFrom") and all(v is not None for v in vals):
+                    need = vals[-1] if adt != "RangeFrom" else vals[0]
+                    okr = adt != "Range" or (len(vals) == 2 and 0 <= vals[0] <= vals[1])
+                    lk = self._len_key(site.node["args"][0])
+                    if lk is not None and okr:
+                        llo, _ = self.range_of(lk, site.bb)
+                        if llo is not None and need <= llo:
+                            return "guard: constant range end %d within the length's lower bound %d" % (need, llo)
         if site.kind == "K4" and site.what.startswith("to_digit:"):
             args = site.node["args"]
             if len(args) == 2:
@@ -773,6 +789,58 @@ class Discharger:
             return "type: operands widened from %s and %s, exact result in [%d, %d] fits %s" % (ra, rb, lo, hi, ty)
         return None
 
+    SIZEY_CALLS = ("len", "len_utf8", "count", "capacity", "to_usize", "into_usize", "position", "find", "rfind", "size_hint", "min", "max",
+                   "saturating_sub", "as_usize", "leading_zeros", "trailing_zeros", "count_ones")
+
+    def _sizey(self, op, depth=5, seen=None):
+        """the operand is a size-like usize on every definition: a small constant, a widening cast of a narrow unsigned integer, a
+        length / index producing call, the counter of an Enumerate, a usize argument or field, or a sum of such values"""
+        c = self.eval_const(op)
+        if c is not None:
+            return 0 <= c <= (1 << 32)
+        p = op_place(op)
+        if p is None or depth == 0:
+            return False
+        if p["p"]:
+            last = p["p"][-1]
+            if isinstance(last, dict) and "f" in last and last.get("t") == "usize":
+                # a usize field; the counter of `enumerate()` arrives as field 0 of the Some payload
+                return True
+            return False
+        seen = seen or set()
+        if p["l"] in seen:
+            return True
+        seen = seen | {p["l"]}
+        if self.fn.local_ty(p["l"]) != "usize":
+            return False
+        dl = self.defs.defs.get(p["l"], [])
+        if not dl:
+            return 1 <= p["l"] <= self.fn.argc
+        for d in dl:
+            if d[0] == "call":
+                n = strip_generics(callee_name(d[3]) or "").split("::")[-1]
+                if n not in self.SIZEY_CALLS:
+                    return False
+                continue
+            rv = d[3].get("rv", {})
+            k = rv.get("k")
+            if k == "use":
+                if not self._sizey(rv["op"], depth - 1, seen):
+                    return False
+            elif k == "cast" and rv.get("ck") == "IntToInt":
+                q = op_place(rv["op"])
+                sty = self.fn.local_ty(q["l"]) if q is not None and not q["p"] else (q["p"][-1].get("t") if q is not None and isinstance(q["p"][-1], dict) else None)
+                if sty not in ("u8", "u16", "u32", "char", "bool"):
+                    return False
+            elif k == "bin" and rv["op"].replace("WithOverflow", "") in ("Add", "Mul", "Sub", "Div", "Rem", "BitAnd", "Shr"):
+                if not (self._sizey(rv["a"], depth - 1, seen) and self._sizey(rv["b"], depth - 1, seen)):
+                    return False
+            elif k in ("len", "ptrmeta") or (k == "un" and rv.get("op") == "PtrMetadata"):
+                continue
+            else:
+                return False
+        return True
+
     def size_rule(self, site):
         """Add/Mul on usize values that are lengths / indices / len_utf8."""
         if site.kind != "K3" or not site.what.startswith("Overflow:"):
@@ -780,6 +848,8 @@ class Discharger:
         op = site.what.split(":")[1]
         if op not in ("Add", "Mul"):
             return None
+        if op == "Add" and all(self._sizey(o) for o in site.node["ops"]):
+            return "size: usize sum of lengths / indices / widened narrow integers (cannot exceed isize::MAX)"
         fn = self.fn
         tys = []
         for o in site.node["ops"]:
@@ -971,6 +1041,35 @@ class Discharger:
         rd = self.defs.single(rp["l"]) if rp is not None and not rp["p"] else None
         if not (rd and rd[0] == "st" and rd[3]["k"] == "=" and rd[3]["rv"]["k"] == "agg" and rd[3]["rv"].get("ak") == "adt" and rd[3]["rv"]["adt"].endswith("RangeTo")):
             return None
+        cend = self.eval_const(rd[3]["rv"]["ops"][0])
+        if cend is not None:
+            # `dst[..24].copy_from_slice(&src)` with src: [T; 24]
+            sp = op_place(args[1])
+            for _ in range(5):
+                if sp is None:
+                    break
+                ty = self.fn.local_ty(sp["l"]) if not sp["p"] else ""
+                m = re.match(r"^&(?:mut )?\[.*; (\d+)\]$", ty)
+                if m:
+                    return "guard: destination cut to the constant %d, the length of the source array" % cend if int(m.group(1)) == cend else None
+                d = self.defs.single(sp["l"]) if not sp["p"] else None
+                if d and d[0] == "st" and d[3]["k"] == "=" and d[3]["rv"]["k"] in ("use", "cast"):
+                    sp = op_place(d[3]["rv"]["op"])
+                elif d and d[0] == "st" and d[3]["k"] == "=" and d[3]["rv"]["k"] == "ref":
+                    q = d[3]["rv"]["pl"]
+                    if q["p"] == ["*"]:
+                        sp = {"l": q["l"], "p": []}
+                    elif not q["p"]:
+                        ty = self.fn.local_ty(q["l"])
+                        m = re.match(r"^\[.*; (\d+)\]$", ty)
+                        if m:
+                            return "guard: destination cut to the constant %d, the length of the source array" % cend if int(m.group(1)) == cend else None
+                        break
+                    else:
+                        break
+                else:
+                    break
+            return None
         lc = self._producer_call(rd[3]["rv"]["ops"][0])
         if lc is None or not strip_generics(callee_name(lc) or "").endswith("::len") or not lc["args"]:
             return None
@@ -1070,6 +1169,23 @@ class Discharger:
             for st in b["s"]:
                 if st["k"] == "=" and st["lhs"]["l"] == p["l"] and not st["lhs"]["p"]:
                     cmp_st = st
+            if cmp_st is None or (cmp_st["rv"]["k"] == "use" and fn.local_ty(p["l"]) == "bool"):
+                # `let is_nested = depth >= 2; ... if is_nested { .. }`: the flag is computed earlier; sound when the flag and
+                # both compared values are assigned exactly once
+                src = self.src_local(t["op"])
+                d0 = self.defs.single(src["l"]) if src is not None and not src["p"] else None
+                if d0 is not None and d0[0] == "st" and d0[3]["k"] == "=" and d0[3]["rv"]["k"] == "bin" and d0[3]["rv"]["op"] in ("Lt", "Le", "Gt", "Ge", "Eq", "Ne"):
+                    def once(o):
+                        if op_place(o) is None:
+                            return True
+                        q = self.src_local(o)
+                        if q is None:
+                            return False
+                        # every local on the copy chain, including the variable itself, is assigned once
+                        chain = [op_place(o)["l"], q["l"]]
+                        return all(l in self._stable_bases() for l in chain)
+                    if once(d0[3]["rv"]["a"]) and once(d0[3]["rv"]["b"]) and self.fn.local_ty(src["l"]) == "bool":
+                        cmp_st = d0[3]
             if cmp_st is not None and cmp_st["rv"]["k"] == "bin" and cmp_st["rv"]["op"] in ("Lt", "Le", "Gt", "Ge", "Eq", "Ne"):
                 a, c = cmp_st["rv"]["a"], cmp_st["rv"]["b"]
                 true_t = t["else"] if 0 in m else m.get(1)
@@ -1092,6 +1208,38 @@ class Discharger:
                         out.append((bi, bb, None, "Eq", k, None, None, v))
         self._ce = out
         return out
+
+    def _fact_valid(self, key, guard_bb, target, site_bb):
+        """a fact learnt about `key` on the edge guard_bb->target still holds at site_bb: the variable is not assigned on any
+        way from the edge to the site (an assignment inside the site's own block counts as in between)"""
+        if isinstance(key, tuple):
+            return True  # places on stable bases: never assigned
+        dl = [d for d in self.defs.defs.get(key, [])]
+        if 1 <= key <= self.fn.argc:
+            pass
+        elif len(dl) <= 1:
+            return True
+        from .cfg import reachable
+        if not hasattr(self, "_reach_cache"):
+            self._reach_cache = {}
+        ck = (target, guard_bb)
+        if ck not in self._reach_cache:
+            self._reach_cache[ck] = reachable(self.fn, target, blocked={guard_bb})
+        r1 = self._reach_cache[ck]
+        for d in dl:
+            db = d[1]
+            if db == guard_bb and (1 <= key <= self.fn.argc or len(dl) > 1):
+                # assigned in the guard block itself: before the comparison (it is what was compared)
+                continue
+            if db == site_bb and db != target:
+                return False
+            if db in r1:
+                ck2 = (db, guard_bb)
+                if ck2 not in self._reach_cache:
+                    self._reach_cache[ck2] = reachable(self.fn, db, blocked={guard_bb})
+                if site_bb in self._reach_cache[ck2] or db == site_bb:
+                    return False
+        return True
 
     def _edge_dominates(self, src_block, target, site_bb):
         """edge src_block->target dominates site_bb: target dominates site_bb and target's only pred is src_block
@@ -1137,6 +1285,8 @@ class Discharger:
                     o = {"Lt": "Gt", "Le": "Ge", "Gt": "Lt", "Ge": "Le", "Eq": "Eq", "Ne": "Ne"}[o]
                 else:
                     continue
+                if not self._fact_valid(local, bi, target, site_bb):
+                    continue
                 if o == "Lt":
                     hi = c - 1 if hi is None else min(hi, c - 1)
                 elif o == "Le":
@@ -1179,6 +1329,8 @@ class Discharger:
                 if target is None or not self._edge_dominates(bi, target, site_bb):
                     continue
                 o = op if truth else {"Lt": "Ge", "Le": "Gt", "Gt": "Le", "Ge": "Lt", "Eq": "Ne", "Ne": "Eq"}[op]
+                if not (self._fact_valid(a, bi, target, site_bb) and self._fact_valid(b, bi, target, site_bb)):
+                    continue
                 if al == a and bl == b and o in ("Ge", "Gt", "Eq"):
                     return True
                 if al == b and bl == a and o in ("Le", "Lt", "Eq"):
@@ -1192,6 +1344,8 @@ class Discharger:
                 if target is None or not self._edge_dominates(bi, target, site_bb):
                     continue
                 o = op if truth else {"Lt": "Ge", "Le": "Gt", "Gt": "Le", "Ge": "Lt", "Eq": "Ne", "Ne": "Eq"}[op]
+                if not (self._fact_valid(a, bi, target, site_bb) and self._fact_valid(b, bi, target, site_bb)):
+                    continue
                 if al == a and bl == b and o == "Lt":
                     return True
                 if al == b and bl == a and o == "Gt":
@@ -1205,7 +1359,7 @@ class Discharger:
                 if target is None or not self._edge_dominates(bi, target, site_bb):
                     continue
                 o = op if truth else {"Lt": "Ge", "Le": "Gt", "Gt": "Le", "Ge": "Lt", "Eq": "Ne", "Ne": "Eq"}[op]
-                if ((al == local and bc == 0) or (bl == local and ac == 0)) and o == "Ne":
+                if ((al == local and bc == 0) or (bl == local and ac == 0)) and o == "Ne" and self._fact_valid(local, bi, target, site_bb):
                     return True
         return False
 
